@@ -692,7 +692,7 @@ func init() {
 	Register("C16", MultiRunner(func(tier string) ([]MultiCase, []string) {
 		cfg := engine.Config{MaxDepth: 3, Deadline: 60 * time.Second, ReplayLeaf: 30}
 		if tier == "thorough" {
-			cfg = engine.Config{MaxDepth: 5, Deadline: 15 * time.Minute, ReplayLeaf: 200}
+			cfg = engine.Config{MaxDepth: 5, Deadline: 5 * time.Minute, ReplayLeaf: 200} // per case (ten cases)
 		}
 		hi := NewC16()
 		hi.Base = 253 // the next batches get nonces 254, 255, 256 (a byte boundary of the big-endian nonce in every store index)
